@@ -24,9 +24,9 @@ SPEC = {
     "modules": ["HC.Props.C05"],
     "extracted": ["Guards", "Consts", "H11Tables", "AppExit", "ReqGlue"],
     "technique": "Lean 4 theorems on (a) the try/except/finally of both workers' _handle as read off the source (every way the application can end - return, exception, cancellation, exception groups - signals completion; a raise is logged once and contained), (b) the stream transducers (exit in REQUEST/HANDSHAKE => exactly a complete 500 then stream-closed; exit after the start => stream-closed with no end-of-body; a refused message starts nothing, in the model and in the statement order of the REQUEST-state branches of the source) composed with the h11 recycle rule (no EndOfMessage => our side is not DONE => Closed) and the HTTP/2 reset rule, (c) the WebSocket stream transducer run over ARBITRARY interleavings of application messages (accepted or refused) and client input and then the application's end: an invariant tying the counts of response heads / ends of body / close frames handed to the protocol to self.state and wsproto's connection state, by induction over the operation list, and the statement order of the CONNECTED-state websocket.close branch read off the source (state only once the close frame exists, CLOSED before the first await after that); tied by an exhaustive crash-point grid on both workers judged by independent client parsers, a WebSocket state sweep over both carriers and a stream-level differential of the WebSocket exit step",
-    "level_text": "Proved in Lean for every state of a request: however the application ends (returns, raises an exception or an exception group, is cancelled) the try statement of _handle on both workers - extracted from the source on every run - signals completion, logs a raise exactly once before doing so and lets no exception but a cancellation travel further; when the application finishes before a response start, the protocol layer is handed exactly a complete 500 response (content-length 0, connection: close), one access record and stream-closed; a message the stream refuses (invalid headers or status, wrong state: the exception is raised into the application) hands nothing to the protocol and leaves the stream where it was, so dying with that exception is answered 500 before the start and aborts after it - proved for the model and, as statement order (state is assigned only after the Response event was handed over), for the source's REQUEST-state branches; when the application finishes after the start but before the end - mid-body, or with its whole body sent and the trailers it announced (trailers: True) still outstanding (state TRAILERS) - the protocol is handed stream-closed and never an end-of-body: proved for the model and for the source's `message is None` branch, which is read off the source on every run and evaluated state by state (httpExitActs; exit_branch_is_source: the model's completion step IS the source's in all four states; source_exit_never_completes: in RESPONSE and TRAILERS no statement that completes or continues a response), so on HTTP/1 h11's writer is not DONE and the connection is closed instead of recycled (the response stays visibly incomplete), and on HTTP/2 the stream is reset; a WebSocket gets 500 in the handshake and close 1011 when connected - proved over the WebSocket stream model for EVERY sequence of application messages, accepted or refused, of every type in every state (and any client input in between) followed by the application's end: the events handed to the protocol (the same for the HTTP/1.1 and the HTTP/2 carrier) contain at most one response head, one end of body and one close frame over the stream's whole life, and the end adds exactly the 500 (handshake unanswered), nothing but stream-closed (rejection started or complete, close frame already sent - by the application, as 1009, or as the echo of the client's close) or exactly the 1011 close frame (connected, none sent yet); a refused message of any type hands nothing over and moves nothing; in particular a websocket.close no close frame can be built from (int(code) raises, code outside 0..65535, reason not a str - by cases on the refusal, for all codes and reasons) leaves the stream CONNECTED, and the source's branch assigns CLOSED only once the frame exists and before its first await (statement order extracted on every run; repair of F63).  HTTP/1 protocol layer (H11Protocol model): a send h11 refuses puts its writer into ERROR (refused_send_poisons) and from then on NO _send_h11_event raises, whatever the event - the body an application goes on sending, a retried start, the 500 of app_send(None) when it dies (errored_send_never_raises, refused_then_nothing_raises; repair b7999be / F100): only the refusal itself reaches the application, the failure that follows cannot end the connection handler with an error.  Tie: every step index of seven scripted applications (two of them announce trailers: the crash points after the last body message and between two trailers messages are in state TRAILERS) (the point after completion included) x {raise, return, cancel, refused message} with every variant of each (bare / group exception; cancelled inner await / own task cancelled; every refusal hypercorn makes in the state reached) on HTTP/1.1 (with a pipelined follower), HTTP/2 (with a sibling stream that must complete) and WebSocket, both workers; verdicts by independent h11/h2 parsers; exactly one error-log record per raise; a message the PROTOCOL layer refuses (h11: status 101 without an upgrade proposal, status outside its ranges, body beyond / end short of the declared content-length, the end of a response that only has an interim head; h2: a te response header) x what the application does next (dies, gives up, goes on sending, goes on and dies, retries with a valid start, retries and dies) x both workers: the handler never ends with an exception, a dying application is logged once, a complete response at the client is the 500 or exactly what the accepted messages describe, everything else ends closed / reset with the sibling unharmed; stream-level model/implementation correspondence of the exit step after each refused message (HTTP and WebSocket streams); WebSocket state sweep: every state of the stream (handshake, rejection announced / head refused, connected, connected after a survived refusal, rejection started, rejection complete, denied 403, closed) x {raise, return, every message the stream refuses there} x {HTTP/1.1 upgrade, HTTP/2 extended CONNECT} x both workers, judged by an independent wsproto / h11 / h2 client.",
+    "level_text": "Proved in Lean for every state of a request: however the application ends (returns, raises an exception or an exception group, is cancelled) the try statement of _handle on both workers - extracted from the source on every run - signals completion, logs a raise exactly once before doing so and lets no exception but a cancellation travel further; when the application finishes before a response start, the protocol layer is handed exactly a complete 500 response (content-length 0, connection: close), one access record and stream-closed; a message the stream refuses (invalid headers or status, wrong state: the exception is raised into the application) hands nothing to the protocol and leaves the stream where it was, so dying with that exception is answered 500 before the start and aborts after it - proved for the model and, as statement order (state is assigned only after the Response event was handed over), for the source's REQUEST-state branches; when the application finishes after the start but before the end - mid-body, or with its whole body sent and the trailers it announced (trailers: True) still outstanding (state TRAILERS) - the protocol is handed stream-closed and never an end-of-body: proved for the model and for the source's `message is None` branch, which is read off the source on every run and evaluated state by state (httpExitActs; exit_branch_is_source: the model's completion step IS the source's in all four states; source_exit_never_completes: in RESPONSE and TRAILERS no statement that completes or continues a response), so on HTTP/1 h11's writer is not DONE and the connection is closed instead of recycled (the response stays visibly incomplete), and on HTTP/2 the stream is reset - and the reset does not wait for the peer's flow-control credit: the guard and the statements of H2Protocol._reset_abandoned_response are read off the source on every run (h2AbandonGuard, h2AbandonSteps), none of them is a buffer.drain() or an unknown await (h2_abandon_path_waits_only_for_transport), so the function returns from every state of the stream (h2_abandon_path_returns), the two ops of the send-path model H2Send that stand for it are exactly these statements (h2_abandon_model_is_source), and in that model - which has the buffer, both windows and the send task - the reset step is enabled in every state, whatever is buffered and whatever the windows are (h2_abandoned_reset_needs_no_credit); a WebSocket gets 500 in the handshake and close 1011 when connected - proved over the WebSocket stream model for EVERY sequence of application messages, accepted or refused, of every type in every state (and any client input in between) followed by the application's end: the events handed to the protocol (the same for the HTTP/1.1 and the HTTP/2 carrier) contain at most one response head, one end of body and one close frame over the stream's whole life, and the end adds exactly the 500 (handshake unanswered), nothing but stream-closed (rejection started or complete, close frame already sent - by the application, as 1009, or as the echo of the client's close) or exactly the 1011 close frame (connected, none sent yet); a refused message of any type hands nothing over and moves nothing; in particular a websocket.close no close frame can be built from (int(code) raises, code outside 0..65535, reason not a str - by cases on the refusal, for all codes and reasons) leaves the stream CONNECTED, and the source's branch assigns CLOSED only once the frame exists and before its first await (statement order extracted on every run; repair of F63).  HTTP/1 protocol layer (H11Protocol model): a send h11 refuses puts its writer into ERROR (refused_send_poisons) and from then on NO _send_h11_event raises, whatever the event - the body an application goes on sending, a retried start, the 500 of app_send(None) when it dies (errored_send_never_raises, refused_then_nothing_raises; repair b7999be / F100): only the refusal itself reaches the application, the failure that follows cannot end the connection handler with an error.  Tie: every step index of seven scripted applications (two of them announce trailers: the crash points after the last body message and between two trailers messages are in state TRAILERS) (the point after completion included) x {raise, return, cancel, refused message} with every variant of each (bare / group exception; cancelled inner await / own task cancelled; every refusal hypercorn makes in the state reached) on HTTP/1.1 (with a pipelined follower), HTTP/2 (with a sibling stream that must complete) and WebSocket, both workers; on HTTP/2 every crash point again with the failing stream's window closed to (part of) what the application wrote (SETTINGS_INITIAL_WINDOW_SIZE 0 / 4 / 2, or the default window used up by a 70000-byte body) by a client that returns connection credit, serves the sibling stream and sends no WINDOW_UPDATE for the failing stream for one (virtual) second: by then the reset / the 500 must have arrived, the sibling must be complete and the server must have released the stream (access record); verdicts by independent h11/h2 parsers; exactly one error-log record per raise; a message the PROTOCOL layer refuses (h11: status 101 without an upgrade proposal, status outside its ranges, body beyond / end short of the declared content-length, the end of a response that only has an interim head; h2: a te response header) x what the application does next (dies, gives up, goes on sending, goes on and dies, retries with a valid start, retries and dies) x both workers: the handler never ends with an exception, a dying application is logged once, a complete response at the client is the 500 or exactly what the accepted messages describe, everything else ends closed / reset with the sibling unharmed; stream-level model/implementation correspondence of the exit step after each refused message (HTTP and WebSocket streams); WebSocket state sweep: every state of the stream (handshake, rejection announced / head refused, connected, connected after a survived refusal, rejection started, rejection complete, denied 403, closed) x {raise, return, every message the stream refuses there} x {HTTP/1.1 upgrade, HTTP/2 extended CONNECT} x both workers, judged by an independent wsproto / h11 / h2 client.",
     "level_note": "Trusted: Lean kernel; stream models and H11Protocol model (differential runs in C12/C06); the extractor's reading of _handle and of the REQUEST-state branches (unrecognised statements are an EXTRACT-FAIL); h11 framing decides whether an aborted body is visibly incomplete: a response whose whole declared content-length was already written, or a close-delimited HTTP/1.0 body, cannot be distinguished from a complete one by any client and is outside the statement; the HTTP/2 reset rule is the code path added by the F06 repair; the WebSocket model's close message carries the RESULT of int(code) (value or raised class - the language's own conversion, computed by the harness) and wsproto's refusals while serialising a close frame (code outside 0..65535, reason without encode) are modelled (Ws.closeFrame) and tied by the differential runs of C05 and C12; on HTTP/2 the stream-level theorems speak about the events handed to H2Protocol - what H2Protocol does with StreamClosed for a WebSocket stream is the known finding F110.",
-    "rule": "script family x crash index x kind (raise / return / cancel / refused message) x variant x protocol x worker (exhaustive grid for the canonical variant, all variants on a sweep reaching every response state: REQUEST / RESPONSE / TRAILERS / CLOSED); protocol-refused message x continuation x protocol x worker (exhaustive); WebSocket: stream state x end (raise / return / each refused message of the state) x carrier x worker, exhaustive; distinct = each grid cell; non-trivial = the application ends before completing its response or dies after it",
+    "rule": "script family x crash index x kind (raise / return / cancel / refused message) x variant x protocol x worker (exhaustive grid for the canonical variant, all variants on a sweep reaching every response state: REQUEST / RESPONSE / TRAILERS / CLOSED); HTTP/2 additionally x {request body still in flight} and x {flow-control window of the failing stream: 0, 2, 4 bytes, or the default window used up by a 70000-byte body; no WINDOW_UPDATE for that stream before the bound}; protocol-refused message x continuation x protocol x worker (exhaustive); WebSocket: stream state x end (raise / return / each refused message of the state) x carrier x worker, exhaustive; distinct = each grid cell; non-trivial = the application ends before completing its response or dies after it",
     "trusted": ["h11 / h2 client parsers as the client's verdict"],
     "partial": [],
     "assumptions": ["'logged' is required for raising applications (their own exception or one the server raised into them) only: a silent early return and a cancellation are not errors",
@@ -61,6 +61,18 @@ FAMILIES = {
 # of a trailers family sends `te: trailers`
 FAMILY_PROTOS = {"send_trailers": ("2",)}
 TRAILER_FAMILIES = ("announce_trailers", "send_trailers")
+# HTTP/2 flow control (grid `window_grid`): the client's window for the failing stream does not cover what the application
+# wrote before it ended - a small SETTINGS_INITIAL_WINDOW_SIZE, or the default window used up by a body larger than it - and
+# the client sends no WINDOW_UPDATE for that stream before RESET_BOUND (it returns connection credit and serves the sibling
+# stream).  What the server must do about the abandoned response may not depend on credit it has no claim to.
+BIG = 70000
+WINDOW_FAMILIES = {
+    "big_body": [["send", START], ["send", {"type": "http.response.body", "body": b"B" * BIG, "more_body": True}],
+                 ["send", {"type": "http.response.body", "body": b"def"}]],
+}
+ALL_FAMILIES = {**FAMILIES, **WINDOW_FAMILIES}
+WINDOWS = (0, 4, 2)            # quick: the first two
+RESET_BOUND = 1.0              # virtual seconds the client leaves the failing stream's window alone
 
 
 def protos_of(fam: str) -> tuple:
@@ -201,14 +213,14 @@ def refusal_grid() -> List[dict]:
 
 
 def steps_of(case: dict) -> List[list]:
-    return WS_FAMILY if case["family"] == "ws" else FAMILIES[case["family"]]
+    return WS_FAMILY if case["family"] == "ws" else ALL_FAMILIES[case["family"]]
 
 
 def scripted_state(case: dict) -> str:
     """state the response is in at the crash point if every scripted message before it is accepted"""
     if case["family"] == "ws":
         return "CONNECTED" if case["crash_at"] >= 2 else "HANDSHAKE"
-    return _fold([s_[1] for s_ in FAMILIES[case["family"]][: case["crash_at"]] if s_[0] == "send"])
+    return _fold([s_[1] for s_ in steps_of(case)[: case["crash_at"]] if s_[0] == "send"])
 
 
 def _fold(msgs: List[dict]) -> str:
@@ -276,6 +288,27 @@ def grid(full: bool = False) -> List[dict]:
     return cases
 
 
+def window_grid(full: bool = False) -> List[dict]:
+    """HTTP/2, every crash point x kind (canonical variant) x worker, with the failing stream's flow-control window closed
+    to (part of) what the application wrote: SETTINGS_INITIAL_WINDOW_SIZE 0 (nothing of the body can leave), 4 (the first
+    body message leaves, the second only in part), 2 (thorough: the first only in part); `big_body`: the default window
+    (65535) used up by a 70000-byte body message.  No WINDOW_UPDATE for that stream before RESET_BOUND."""
+    cases = []
+    fams = [(fam, steps, WINDOWS if full else WINDOWS[:2]) for fam, steps in FAMILIES.items()] + \
+           [(fam, steps, (65535,)) for fam, steps in WINDOW_FAMILIES.items()]
+    for fam, steps, windows in fams:
+        for idx in range(len(steps) + 1):
+            for kind in KINDS:
+                for worker in ("asyncio", "trio"):
+                    for w in windows:
+                        c = {"family": fam, "crash_at": idx, "kind": kind, "proto": "2", "worker": worker, "window": w}
+                        v = variants(c)[0]
+                        if v is not None:
+                            c["variant"] = v
+                        cases.append(c)
+    return cases
+
+
 def script_for(case: dict) -> List[list]:
     if case["kind"] == "proto_refused":
         ent = PROTO_REFUSED[case["msg"]]
@@ -314,7 +347,7 @@ def accepted_state(case: dict, app_sends: List[list]) -> Optional[str]:
 
 
 def sent_body_len(case: dict) -> int:
-    return sum(len(s[1].get("body", b"")) for s in FAMILIES[case["family"]][: case["crash_at"]] if s[0] == "send" and s[1]["type"] == "http.response.body")
+    return sum(len(s[1].get("body", b"")) for s in steps_of(case)[: case["crash_at"]] if s[0] == "send" and s[1]["type"] == "http.response.body")
 
 
 def run_case(case: dict) -> dict:
@@ -350,6 +383,28 @@ def run_case(case: dict) -> dict:
             await io.sleep(2.0)
             await c.pump(io)
             return {"summary": c.summary(), "s1": s1, "s3": s3, "unsent": {str(k): len(v[0]) for k, v in c.pending.items()}}
+    elif case["proto"] == "2" and case.get("window") is not None:
+        # The client's window for the failing stream is `window` bytes and stays that way until RESET_BOUND: connection
+        # credit is returned as data arrives, the sibling stream gets stream credit of its own, the failing stream gets
+        # none.  What the client knows at RESET_BOUND is kept (`at_bound`); only then does it open the failing stream's
+        # window (so that a response the application COMPLETED can still be delivered and judged as before).
+        async def client(io):
+            c = C.H2Client(initial_window=case["window"], auto_window="connection")
+            await c.pump(io)                  # SETTINGS exchanged: the server knows the window before the request
+            s1 = c.request(C.h2_headers("POST", "/crash", extra=[(b"te", b"trailers")] if case["family"] in TRAILER_FAMILIES else None), b"body")
+            await c.pump(io)
+            s3 = c.request(C.h2_headers("GET", "/sibling"))
+            c.grant(s3, 1000)
+            await c.pump(io)
+            await io.sleep(RESET_BOUND)
+            await c.pump(io)
+            at_bound = {k: {"ended": v_["ended"], "reset": v_["reset"], "received": len(v_["data"]), "headers": v_["headers"] is not None}
+                        for k, v_ in ((str(s1), c._st(s1)), (str(s3), c._st(s3)))}
+            granted = c.grant(s1, 1 << 20)
+            await c.pump(io)
+            await io.sleep(2.0)
+            await c.pump(io)
+            return {"summary": c.summary(), "s1": s1, "s3": s3, "at_bound": at_bound, "granted_after_bound": granted}
     elif case["proto"] == "2":
         async def client(io):
             c = C.H2Client()
@@ -368,6 +423,16 @@ def run_case(case: dict) -> dict:
                 "error": cr["summary"]["error"], "goaway": cr["summary"]["goaway"], "closed": res["closed_at"] is not None,
                 "unsent": cr.get("unsent", {}),
                 "sibling_received": None if sib_app is None else sum(len(m[2]) for m in sib_app["recv"] if m[1] == "http.request")}
+        if case.get("window") is not None:
+            ab = cr.get("at_bound") or {}
+            crash_rec = next((a for a in res["apps"] if a["scope"]["path"] == "/crash"), None)
+            # server side: the access record of the failing request is written when the completion signal (app_send(None))
+            # has been worked off - the stream is released, the connection can go idle
+            released = [a[0] for a in res["access"] if a[1] == "/crash"]
+            view["window"] = {"at_bound": {"crash": ab.get(str(cr["s1"])), "sibling": ab.get(str(cr["s3"]))},
+                              "granted_after_bound": cr.get("granted_after_bound"),
+                              "app_exit_ms": None if crash_rec is None else crash_rec.get("t_exit"),
+                              "released_ms": released[0] if released else None}
     elif case["proto"] == "ws":
         from ..core.h11sessions import WS_KEY
         from wsproto.connection import Connection, ConnectionType
@@ -409,7 +474,7 @@ def check(ctx: Ctx, cases: List[dict]) -> None:
         ctx.count("kind", case["kind"] + ("/" + case["variant"] if case.get("variant") and case["kind"] != "invalid" else ""))
         if case["kind"] == "invalid":
             ctx.count("invalid_message", scripted_state(case) + ":" + case["variant"])
-        ctx.distinct([case["family"], case["crash_at"], case["kind"], case.get("variant"), case["proto"], case["worker"], case.get("upload")])
+        ctx.distinct([case["family"], case["crash_at"], case["kind"], case.get("variant"), case["proto"], case["worker"], case.get("upload"), case.get("window")])
         if case.get("upload"):
             ctx.count("h2_upload", case["upload"])
         ctx.sample(case, cap=3)
@@ -460,7 +525,7 @@ def check(ctx: Ctx, cases: List[dict]) -> None:
             if not v["closed"]:
                 ctx.violation("not_terminated", case, v, sig)
             continue
-        full = "".join(s_[1].get("body", b"").decode() for s_ in FAMILIES[case["family"]] if s_[0] == "send" and s_[1]["type"] == "http.response.body")
+        full = "".join(s_[1].get("body", b"").decode() for s_ in steps_of(case) if s_[0] == "send" and s_[1]["type"] == "http.response.body")
         if case["proto"] == "1.1":
             r0 = v["responses"][0] if v["responses"] else None
             if st == "REQUEST":
@@ -497,6 +562,28 @@ def check(ctx: Ctx, cases: List[dict]) -> None:
                 ctx.violation("sibling_affected", case, {"sibling_received": v.get("sibling_received"), "want": len(SIBLING_UPLOAD)}, sig)
             raw = dict(c["headers"]).get(":status") if c.get("headers") else None
             status = int(raw) if isinstance(raw, str) and raw.isdigit() else None
+            if case.get("window") is not None:
+                # "promptly terminated ... the stream is reset", for a client that gives the failing stream no credit: judged on
+                # what the client had seen at RESET_BOUND, before it opened that stream's window
+                w = v["window"]
+                ab, sb = w["at_bound"]["crash"] or {}, w["at_bound"]["sibling"] or {}
+                wsig = {**sig, "window": "closed"}
+                held = max(0, sent_body_len(case) - (ab.get("received") or 0))
+                ctx.count("h2_window", str(case["window"]))
+                ctx.count("h2_window.state_at_exit", f"{st} / {'body bytes held back by the window' if held else 'nothing held back'}")
+                if not (sb.get("ended") and sb.get("headers")):
+                    ctx.violation("sibling_affected", case, {"at_bound": w["at_bound"], "note": "the sibling stream (which has credit) is not answered while the failing stream's window is closed"}, wsig)
+                if st == "REQUEST" and not ab.get("ended"):
+                    ctx.violation("crash_before_start_500", case, {"at_bound": w["at_bound"]}, wsig)
+                if st in ("RESPONSE", "TRAILERS"):
+                    if ab.get("reset") is None and not ab.get("ended"):
+                        ctx.violation("h2_reset_waits_for_credit", case, {"at_bound": w["at_bound"], "bound_s": RESET_BOUND, "body_bytes_held_back": held,
+                                                                         "after_credit": {"reset": c.get("reset"), "ended": c.get("ended")}}, wsig)
+                    # (the credit arrives RESET_BOUND after the request; every script has ended long before half of that)
+                    t0, t1 = w["app_exit_ms"], w["released_ms"]
+                    if t0 is not None and (t1 is None or t1 - t0 > RESET_BOUND * 500):
+                        ctx.violation("abandoned_stream_not_released", case, {"app_exit_ms": t0, "released_ms": t1, "bound_s": RESET_BOUND / 2,
+                                                                             "note": "the completion signal of the failed application is still being worked off: the stream stays registered"}, wsig)
             if st == "REQUEST":
                 if not (status == 500 and c.get("ended")):
                     ctx.violation("crash_before_start_500", case, c, sig)
@@ -807,6 +894,9 @@ def run(ctx: Ctx) -> None:
     ctx.exhaustive = True
     check_refused(ctx, refusal_grid())
     check(ctx, cases)
+    # HTTP/2 with the failing stream's flow-control window closed to what the application wrote (no WINDOW_UPDATE before
+    # RESET_BOUND): every crash point x kind x worker x window
+    check(ctx, window_grid(full=ctx.thorough))
     # WebSocket: every state of the stream x every end (raise / return / every refused message of the state), both carriers
     check_ws_sweep(ctx, ws_sweep_grid(full=ctx.thorough))
     check_ws_stream_level(ctx)
